@@ -278,6 +278,8 @@ func runC02(w *fw.Worker) {
 }
 
 var c02Structural = []string{
+	// differently nested untyped empties concatenated, an element taken out and ranged over: the loop variable is typed any
+	"for x := range ([[]] + [[[]]])[1]\n    print (typeof x)\nend\n",
 	"m := {}\nm.a = m\nprint m\n",
 	"a := [1 \"x\"]\na[0] = a\nb := [1 \"x\"]\nb[0] = b\nprint (a == b)\n",
 	"a := [1 \"x\"]\na[0] = a\nprint (len a) (typeof a) (typeof a[0])\n",
